@@ -21,11 +21,18 @@ Ranges(lo, hi, k) ==
   LET s == Size(lo, hi)  n == Parts(lo, hi, k) IN
   [i \in 1..n |-> <<StartOf(lo, s, n, i), StartOf(lo, s, n, i) + PartWidth(s, n, i) - 1>>]
 
-IsPartition(rs, lo, hi) ==
+\* the ranges, IN THE ORDER GIVEN, tile lo..hi (what the arithmetic of the code produces)
+IsTiling(rs, lo, hi) ==
   /\ Len(rs) >= 1
   /\ \A i \in 1..Len(rs) : rs[i][1] <= rs[i][2]
   /\ rs[1][1] = lo /\ rs[Len(rs)][2] = hi
   /\ \A i \in 1..(Len(rs) - 1) : rs[i + 1][1] = rs[i][2] + 1
+\* what C12 asks of the parts, in whatever order they are returned: non-empty, pairwise disjoint, covering lo..hi
+IsPartition(rs, lo, hi) ==
+  /\ Len(rs) >= 1
+  /\ \A i \in 1..Len(rs) : rs[i][1] <= rs[i][2] /\ lo <= rs[i][1] /\ rs[i][2] <= hi
+  /\ \A i, j \in 1..Len(rs) : i < j => (rs[i][2] < rs[j][1] \/ rs[j][2] < rs[i][1])
+  /\ \A v \in lo..hi : \E i \in 1..Len(rs) : rs[i][1] <= v /\ v <= rs[i][2]
 
 KMax == 11
 ---------------------------------------------------------------------------
